@@ -8,7 +8,7 @@ import re
 from ..cfg import build_cfg, calls_in, node_calls
 from ..core import Ctx, property_info, rule
 from ..model import AnalysisError, ClassInfo, FuncInfo, const_str, walk_no_nested
-from ..q import A, Dispatch, leaf_conditions, reach_table, value_texts, call_name_of, control_deps, flow_conditions, flows, names_from_calls, node_containing, raw_forms, expand_at, str_template, stores, unparse
+from ..q import A, Dispatch, polar_forms, cmp_atom, leaf_conditions, reach_table, value_texts, call_name_of, control_deps, flow_conditions, flows, names_from_calls, node_containing, raw_forms, expand_at, str_template, stores, unparse
 
 DT = "xsdata.models.datatype"
 DATES = "xsdata.utils.dates"
@@ -312,14 +312,21 @@ def directive_coverage(ctx: Ctx) -> None:
            msg="unknown directive silently ignored")
     # literal characters of the format are matched exactly by skip()
     p = ctx.repo.func(f"{DATES}:DateTimeParser.parse")
-    src = unparse(p.node)
-    ctx.ob("parse: trailing input is rejected (vidx must reach vlen)", "self.vidx != self.vlen" in src and "raise ValueError" in src, at=p, construct="trailing input",
-           msg="trailing garbage after a complete match would be accepted")
+    gp = build_cfg(p.node)
+    raises_ = [n for n in gp.stmts() if isinstance(n.ast, ast.Raise) and n.ast.exc is not None and "ValueError" in unparse(n.ast.exc)]
+    tabs = [reach_table(p, n, [cmp_atom("self.vidx", "!=", "self.vlen")], raw=True) for n in raises_]
+    if any(tb is None for tb in tabs):
+        ctx.abstain("end-of-input test of DateTimeParser.parse", at=p)
+    else:
+        ctx.ob("parse: trailing input is rejected (vidx must reach vlen)", any(tb == {(True,): True, (False,): False} for tb in tabs), at=p, construct="trailing input",
+               msg="trailing garbage after a complete match would be accepted")
     sk = ctx.repo.func(f"{DATES}:DateTimeParser.skip")
     g = build_cfg(sk.node)
     adv = [g.node_of(st) for st, tgt, _ in stores(sk.node) if unparse(tgt) == "self.vidx"]
+    lit = [a.arg for a in sk.params if a.arg not in ("self", "cls")][:1]
+    CURRENT = {"self.peek()", "self.value[self.vidx]"}
     tests = [t for t in g.nodes if t.kind == "test" and isinstance(t.ast, ast.Compare) and len(t.ast.ops) == 1 and isinstance(t.ast.ops[0], (ast.Eq, ast.NotEq))
-             and {unparse(t.ast.left), unparse(t.ast.comparators[0])} == {"self.peek()", "char"}]
+             and any(unparse(x) in lit for x in (t.ast.left, t.ast.comparators[0])) and any(CURRENT & value_texts(sk, t, x) for x in (t.ast.left, t.ast.comparators[0]))]
     ok = bool(adv) and bool(tests) and all(a is not None and g.only_if(a.id, t.id, isinstance(t.ast.ops[0], ast.Eq)) for a in adv for t in tests)
     ctx.ob("skip: advances only over the expected literal", ok, at=sk, construct="literal match", msg="a wrong separator would be accepted")
 
@@ -522,6 +529,16 @@ SPEC_RANGES = {
 }
 
 
+def _bound(fi: FuncInfo, t, e: ast.expr):
+    """A range bound as an int (literal, through temporaries, or a module-level constant) or else its expanded text."""
+    x = expand_at(fi, t, e)
+    if isinstance(x, ast.Name) and isinstance(fi.module.globals.get(x.id), ast.Constant):
+        x = fi.module.globals[x.id]
+    if isinstance(x, ast.Constant) and isinstance(x.value, int):
+        return x.value
+    return unparse(x)
+
+
 @rule("C06.R7")
 def range_tables(ctx: Ctx) -> None:
     """validate_date / validate_time bounds and the month-length table equal the calendar / XSD tables."""
@@ -541,26 +558,43 @@ def range_tables(ctx: Ctx) -> None:
     for fn in ("validate_date", "validate_time"):
         fi = ctx.repo.func(f"{DATES}:{fn}")
         g = build_cfg(fi.node)
-        for t in g.nodes:
-            if t.kind != "test" or not isinstance(t.ast, ast.Compare) or len(t.ast.ops) != 2:
-                continue
-            c = t.ast
-            if not (isinstance(c.ops[0], ast.LtE) and isinstance(c.ops[1], ast.LtE) and isinstance(c.comparators[0], ast.Name)):
-                continue
-            var = c.comparators[0].id
-            lo = c.left.value if isinstance(c.left, ast.Constant) else None
-            hi_node = c.comparators[1]
-            hi = hi_node.value if isinstance(hi_node, ast.Constant) else unparse(hi_node)
-            found += 1
+        # the accepted range of every component: bounds the normal exit depends on - a chained `lo <= v <= hi`, or two separate
+        # tests (`lo <= v` and `v <= hi`, in any spelling / polarity, directly or inside an extracted range predicate)
+        import re as _re
+        params_ = [a.arg for a in fi.params]
+        for var in params_:
             if var != "day" and var not in SPEC_RANGES:
-                continue  # not a calendar component by name (e.g. the variable of a loop over several components): no table entry to compare with
+                continue
+            lo = hi = None
+            deciders = []
+            for t in g.nodes:
+                if t.kind != "test" or t.ast is None:
+                    continue
+                c = t.ast
+                if isinstance(c, ast.Compare) and len(c.ops) == 2 and isinstance(c.ops[0], ast.LtE) and isinstance(c.ops[1], ast.LtE) and var in value_texts(fi, t, c.comparators[0]) \
+                        and g.only_if(g.exit, t.id, True):
+                    lo = c.left.value if isinstance(c.left, ast.Constant) else None
+                    hi = _bound(fi, t, c.comparators[1])
+                    deciders.append(t)
+                    continue
+                for f, same in polar_forms(fi, t, c, anon=False):
+                    f = f.replace(" ", "")
+                    m1 = _re.fullmatch(r"(-?\d+)<=" + _re.escape(var), f)
+                    m2 = _re.fullmatch(_re.escape(var) + r"<=(.+)", f)
+                    if m1 and g.only_if(g.exit, t.id, same):
+                        lo = int(m1.group(1))
+                        deciders.append(t)
+                    elif m2 and g.only_if(g.exit, t.id, same):
+                        hi = int(m2.group(1)) if _re.fullmatch(r"-?\d+", m2.group(1)) else _bound(fi, t, ast.parse(m2.group(1), mode="eval").body)
+                        deciders.append(t)
+            if lo is None and hi is None:
+                continue
+            found += 1
             if var == "day":
                 ok = lo == 1 and (hi in names_from_calls(fi.node, ("monthlen",)) or str(hi).replace(" ", "") == "monthlen(year,month)")
-                # and the failing side raises
             else:
                 ok = SPEC_RANGES.get(var) == (lo, hi)
-            raises = [m for m, lab in g.succ[t.id] if lab == "false" and isinstance(g.nodes[m].ast, ast.Raise)]
-            ctx.ob(f"{fn}: {lo} <= {var} <= {'monthlen(year, month)' if var == 'day' else hi} matches the specification and its failure raises", ok and bool(raises), at=fi, node=c,
+            ctx.ob(f"{fn}: {lo} <= {var} <= {'monthlen(year, month)' if var == 'day' else hi} matches the specification and its failure raises", ok, at=fi, node=deciders[0].ast if deciders else None,
                    construct=f"range {var}", msg=f"range for {var} is {lo}..{hi}, specification says {SPEC_RANGES.get(var, (1, 'monthlen'))}")
         if fn == "validate_date":
             ctx.ob("validate_date: max_days = monthlen(year, month)", any(unparse(c).replace(" ", "") == "monthlen(year,month)" for c in calls_in(fi.node)),
@@ -674,11 +708,19 @@ def day_number_steps_in_order(ctx: Ctx) -> None:
         ok = any({("_<=2", True), ("_<3", True)} & leaf_conditions(fi, n, leaf, chain) for leaf, chain in shifted)
         ctx.ob("_days_from_civil: the era is split from the year AFTER the Jan/Feb shift (year - 1 when month <= 2)", ok, at=fi, node=where, construct="year shift first",
                msg="the era / year-of-era are split before the shift: January and February of years divisible by 400 land on the wrong day (2000-02-29 == 2000-03-01)")
-    consts = {n.value for n in ast.walk(fi.node) if isinstance(n, ast.Constant) and isinstance(n.value, int)}
+    def _ints(fn_node, mod) -> set[int]:
+        """Integer literals of a function, including the module-level constants it names."""
+        out = {n.value for n in ast.walk(fn_node) if isinstance(n, ast.Constant) and isinstance(n.value, int) and not isinstance(n.value, bool)}
+        for n in ast.walk(fn_node):
+            if isinstance(n, ast.Name) and isinstance(mod.globals.get(n.id), ast.Constant) and isinstance(mod.globals[n.id].value, int):
+                out.add(mod.globals[n.id].value)
+        return out
+
+    consts = _ints(fi.node, fi.module)
     ctx.ob("_days_from_civil uses the proleptic Gregorian constants (400, 146097, 365, 4, 100, 153)", {400, 146097, 365, 4, 100, 153} <= consts, at=fi, construct="calendar constants", msg=f"constants {sorted(consts)}")
     tl = ctx.repo.func(f"{DT}:_timeline")
     a = unparse(tl.node)
-    ctx.ob("_timeline uses the day number only for dateTime values and scales seconds to nanoseconds", "isinstance(obj, XmlDateTime)" in a and "1000000000" in a.replace("_", "") and "obj.fractional_second" in a, at=tl,
+    ctx.ob("_timeline uses the day number only for dateTime values and scales seconds to nanoseconds", "isinstance(obj, XmlDateTime)" in a and 1_000_000_000 in _ints(tl.node, tl.module) and "obj.fractional_second" in a, at=tl,
            construct="timeline composition", msg="timeline composition changed")
     for name, want in (("DS_DAY", 86400), ("DS_HOUR", 3600), ("DS_MINUTE", 60), ("DS_OFFSET", -60)):
         v = ctx.repo.module(DT).globals.get(name)
